@@ -21,12 +21,13 @@ import time
 
 import verif
 
-THEOREMS = ["IstioModel.C17.Sort", "IstioModel.C17.Theorems"]
+# The obligations are the theorems of Theorems.lean only. Sort.lean / Lemmas.lean hold definitions and helper lemmas,
+# Unfixed.lean the pre-repair behaviour (historical record); they are built and grepped but not counted.
+THEOREMS = ["IstioModel.C17.Theorems"]
 
 # Types that answer a *requested name set*: the real generators walk that set in Go map order
 # (w.ResourceNames.UnsortedList(), `for clusterName := range w.ResourceNames`).  A difference that is only
 # the order of the resources in the response of such a type is this one class and nothing else.
-NAMED_TYPES = ("EDS", "RDS", "ECDS")
 KNOWN_ORDER_FP = "perm:response-order:requested-names"
 
 
@@ -60,12 +61,14 @@ def oracle_cmp(ctx, stream, case_lines, rep):
 
 
 # ---------------------------------------------------------------------------------------------- perm
-def observe_twice(ctx, ops, tag):
+def observe_twice(ctx, ops, tag, env_extra=None):
     """Run `observe` on the same ops in two separate harness processes (in parallel)."""
     outs = [os.path.join(ctx.work, "perm.%s.obs%d" % (tag, i)) for i in (0, 1)]
     env = verif.go_env()
     env["VERIF_SEED"] = str(ctx.seed)
     env["VERIF_TIER"] = ctx.tier
+    if env_extra:
+        env.update(env_extra)
     procs = []
     for o in outs:
         if os.path.exists(o):
@@ -105,7 +108,8 @@ def merge_observations(ctx, a_path, b_path, mon_ops):
         cb = b[i] if i < len(b) else [ca[0], "skip second-process-produced-no-output"]
         head = ca[0]
         out.append(head)
-        feat = [l for l in ca if l.startswith("info")]
+        feat = [l for l in ca if l.startswith("info feat=")]
+        sdiff = [l for l in ca + cb if l.startswith("info statediff=")]
         ka = {l.split()[1]: l.split()[2:] for l in ca if l.startswith("obs")}
         kb = {l.split()[1]: l.split()[2:] for l in cb if l.startswith("obs")}
         skip = [l for l in ca + cb if l.startswith("skip")]
@@ -113,26 +117,37 @@ def merge_observations(ctx, a_path, b_path, mon_ops):
         if skip or not ka:
             out.append(skip[0] if skip else "skip no-observation")
         elif sorted(ka) != sorted(kb):
-            out.append("obs process-A-and-B-observed-different-keys A B")
+            out.append("obs harness:processes-observed-different-keys A B")
         else:
             for k in ka:
                 out.append("obs %s %s" % (k, " ".join(ka[k] + kb[k])))
                 nobs += len(ka[k]) + len(kb[k])
-        info.append({"head": head, "feat": feat[0] if feat else "", "runs": nobs})
+        info.append({"head": head, "feat": feat[0] if feat else "", "runs": nobs, "statediff": sdiff[0][15:] if sdiff else ""})
     with open(mon_ops, "w") as f:
         f.write("\n".join(out) + "\n")
     return info
 
 
 def classify(key):
-    """obs key `<proxy>:<TYPE>[.order]` -> (fingerprint, human text)."""
+    """observation key -> (fingerprint, human text).
+    `state:<section>`            the control plane's own state after a different insertion order
+    `<proxy>:<TYPE>`             content (name-sorted) of a response
+    `<proxy>:<TYPE>.order`       order of a response whose request order is fixed (or has none)
+    `<proxy>:<TYPE>.setorder`    order of a response to a requested name SET (documented: UnsortedList)"""
+    if ":" not in key:
+        return ("perm:harness:%s" % key, "the permutation harness produced an observation it cannot classify (%s)" % key)
     proxy, typ = key.split(":", 1)
+    if proxy == "state":
+        return ("perm:state-order:%s" % typ,
+                "the control plane comes to rest in a different STATE (%s) when the same objects are created in a different order" % typ)
+    if proxy == "harness":
+        return ("perm:harness:%s" % typ, "the two harness processes did not observe the same set of keys")
+    if typ.endswith(".setorder"):
+        return (KNOWN_ORDER_FP,
+                "the order of the resources in an EDS/RDS/ECDS response follows Go map iteration over the requested "
+                "name set (w.ResourceNames.UnsortedList()); contents are identical")
     if typ.endswith(".order"):
         t = typ[:-6]
-        if t in NAMED_TYPES:
-            return (KNOWN_ORDER_FP,
-                    "the order of the resources in an EDS/RDS/ECDS response follows Go map iteration over the requested "
-                    "name set (w.ResourceNames.UnsortedList()); contents are identical")
         return ("perm:order:%s" % t, "the ORDER of the %s resources generated for one proxy from one state differs between runs" % t)
     return ("perm:content:%s" % typ, "the CONTENT of the %s resources generated for one proxy from one state differs between runs" % typ)
 
@@ -198,8 +213,13 @@ def judge_perm(ctx, tag, ops_path, source):
     if nc and skipped * 5 > nc:
         ctx.tie_broken("perm-unsettled", "%d of %d meshes did not reach the same control-plane state in all builds; nothing was compared for them" % (skipped, nc))
     reported = set()
+    unconfirmed = {}  # fingerprint -> number of cases that did not reproduce
+    sdiff = {i["head"]: i["statediff"] for i in info}
     for case_line, keys in bad.items():
         classes = {}
+        if any(k.startswith("state:") for k in keys):
+            # the state itself differs: differences of what is generated from it follow and are not reported separately
+            keys = [k for k in keys if k.startswith("state:")]
         # an order difference is reported only where the content is identical (else it is the same cause twice)
         keys = [k for k in keys if not (k.endswith(".order") and k[:-6] in keys)]
         for k in keys:
@@ -212,37 +232,53 @@ def judge_perm(ctx, tag, ops_path, source):
             reported.add(fp)
             case_ops = " ".join(t for t in case_line.split() if not t.startswith(("objs=", "res=")))
             rep = {"stream": "perm", "ops": [case_ops], "differing_observations": ks, "source": source}
+            if sdiff.get(case_line):
+                rep["state_difference"] = sdiff[case_line]
             if fp != KNOWN_ORDER_FP:
                 if not confirm(ctx, case_ops, ks):
-                    # did not reproduce in 3 re-runs that let the control plane rest before generating: a state that
-                    # was still moving when the first run generated (asynchronous registries), not generation
+                    # Did not reproduce in 2 re-runs (two processes each, compared across both) that let the control plane
+                    # rest before generating. It was observed, so it is never dropped: it breaks the tie.
+                    unconfirmed[fp] = unconfirmed.get(fp, 0) + 1
                     ctx.count("perm.unconfirmed." + fp)
-                    ctx.log("perm: %s on `%s` did not reproduce under a quiet-period re-run; not reported" % (fp, case_ops))
-                    reported.discard(fp)
+                    ctx.log("perm: %s on `%s` did not reproduce under a quiet-period re-run" % (fp, case_ops))
+                    if unconfirmed[fp] < 2:
+                        reported.discard(fp)  # try once more on the next case that shows it
+                        continue
+                    ctx.tie_broken("perm-unconfirmed:" + fp,
+                                   "a difference (%s) was observed on %d meshes but did not reproduce when each mesh was re-run with a quiet "
+                                   "period; either a rare non-determinism or a state the harness compared while it was still moving" % (fp, unconfirmed[fp]), rep)
                     continue
                 rep["explain"] = explain(ctx, case_ops)
                 rep["minimised"] = minimise(ctx, case_ops, ks)
             ctx.violation(fp, what, rep, True)
+    for fp, n in unconfirmed.items():
+        if fp not in reported or n < 2:
+            ctx.tie_broken("perm-unconfirmed:" + fp,
+                           "a difference (%s) was observed on %d mesh(es) but did not reproduce when re-run with a quiet period" % (fp, n))
     ctx.log("perm (%s): %d meshes, %d unsettled, %d with differing observations (%.0fs)" % (source, nc, skipped, len(bad), time.time() - t0))
     return nc
 
 
 def confirm(ctx, case_ops, keys):
-    """Re-run one case (3 attempts, one process each) with a quiet period after the state fingerprints agree."""
+    """Re-run one case (2 attempts, TWO processes each) with a quiet period after the state fingerprints agree;
+    the difference is confirmed if any of `keys` differs again within or ACROSS the two processes."""
     p = os.path.join(ctx.work, "perm.confirm.ops")
     with open(p, "w") as f:
         f.write(case_ops + "\n")
-    out = os.path.join(ctx.work, "perm.confirm.obs")
-    for attempt in range(3):
-        if os.path.exists(out):
-            os.remove(out)
-        rc, log = ctx.harness("observe", p, out, timeout=900, env_extra={"C17_QUIET_MS": "400"})
-        if rc != 0 or not os.path.exists(out):
+    for attempt in range(2):
+        outs, logs = observe_twice(ctx, p, "confirm", env_extra={"C17_QUIET_MS": "400"})
+        if any(rc != 0 for rc, _ in logs) or not all(os.path.exists(o) for o in outs):
             return True  # cannot judge: report
-        for l in ctx.read_lines(out):
-            t = l.split()
-            if t and t[0] == "obs" and t[1] in keys and len(set(t[2:])) > 1:
-                return True
+        digests = {}
+        for o in outs:
+            for l in ctx.read_lines(o):
+                t = l.split()
+                if t and t[0] == "skip":
+                    digests.setdefault("skip", set()).add(l)
+                if t and t[0] == "obs":
+                    digests.setdefault(t[1], set()).update(t[2:])
+        if any(len(digests.get(k, ())) > 1 for k in keys):
+            return True
     return False
 
 
@@ -281,6 +317,9 @@ def run(ctx):
     ctx.trusted.append("the permutation harness observes pilot/test/xds.FakeDiscoveryServer (real stores, registries, PushContext, generators; fake Kubernetes client); "
                        "two builds are compared only after their order-insensitive state fingerprints agree")
     ctx.lean_prove(THEOREMS)
+    rc, out = ctx.lake_build(["IstioModel.C17.Unfixed"])
+    if rc != 0:
+        ctx.tie_broken("lean-unfixed-record", out)
     if not ctx.build_drv():
         return
     if not ctx.go_build():
